@@ -247,6 +247,18 @@ class Cutter(ast.NodeTransformer):
                 return ast.copy_location(ast.Call(ast.Attribute(ast.Name("__pv", ast.Load()), "bool_not", ast.Load()), [n.operand], []), n)
             return n
 
+        def visit_Compare(self, n):
+            n = self.generic_visit(n)
+            if len(n.ops) == 1 and isinstance(n.ops[0], (ast.In, ast.NotIn)):
+                return ast.copy_location(ast.Call(ast.Attribute(ast.Name("__pv", ast.Load()), "contains", ast.Load()),
+                                                  [n.left, n.comparators[0], ast.Constant(isinstance(n.ops[0], ast.NotIn))], []), n)
+            return n
+
+        def visit_IfExp(self, n):
+            n = self.generic_visit(n)
+            lam = lambda v: ast.Lambda(ast.arguments(posonlyargs=[], args=[], kwonlyargs=[], kw_defaults=[], defaults=[]), v)
+            return ast.copy_location(ast.Call(ast.Attribute(ast.Name("__pv", ast.Load()), "if_exp", ast.Load()), [n.test, lam(n.body), lam(n.orelse)], []), n)
+
         def visit_Lambda(self, n): return n
         def visit_ListComp(self, n): return n
         def visit_GeneratorExp(self, n): return n
